@@ -334,6 +334,23 @@ def run_shard(spec, acc):
             acc.violation("hash-missing-with-mapping-on", f"{d.id}: message returned without hash although network mapping is on", w)
             return None
         acc.count("hashes_grouped")
+        if acc.evaluations % 5 == 0:
+            # the hash belongs to the message: copies an application makes of it (the same id and key values, perhaps another
+            # addressing or time) carry it along
+            import copy as _copy
+            import dataclasses as _dc
+            for how_, make_ in (("copy.copy", lambda: _copy.copy(m)), ("copy.deepcopy", lambda: _copy.deepcopy(m)),
+                                ("dataclasses.replace(destination)", lambda: _dc.replace(m, destination=(m.destination + 1) % 255)),
+                                ("dataclasses.replace(source, priority)", lambda: _dc.replace(m, source=(m.source + 1) % 250, priority=(m.priority + 1) % 8)),
+                                ("from_json(to_json)", lambda: type(m).from_json(m.to_json()))):
+                try:
+                    c_ = make_()
+                except Exception:  # noqa: BLE001  (C15's business)
+                    continue
+                acc.count("copies_of_messages_checked_for_their_hash")
+                if c_.hash != m.hash:
+                    acc.violation("hash-lost-or-changed-in-a-copy", f"{d.id}: hash {m.hash} of the decoded message, {c_.hash!r} in its copy made by {how_}", dict(w, copy=how_))
+                    break
         h_before = m.hash
         try:
             m.to_json()
